@@ -528,16 +528,27 @@ def extra_carriers(ctx, rec):
                 variants.append({"via": "gliders"})
             if fn == "clim":
                 variants += [{"tspanc": "iso"}, {"tspanc": "dt64"}, {"climc": "object"}]
-            if ctx.quick:
-                # a window of 12 variants that moves on with every repetition: every variant of every test is visited
-                # (twice or more for most), independently of any random state
-                w = [variants[(rep * 12 + j) % len(variants)] for j in range(min(12, len(variants)))]
-                variants = w + [v for v in variants if "via" in v and v not in w]
+            # (quick and thorough visit EVERY variant for every repetition; a random sample of ten per repetition made two
+            # detections a matter of chance -- the quick tier differs in the number of repetitions only)
             for v in variants:
                 label = ",".join("%s=%s" % kv for kv in sorted(v.items()))
                 steps.append(({"kind": "recall", "i": 0, "k": 0}, json.loads(json.dumps(c)),
                               {"conc": v, "variant": True, "variant_label": label}))
             rec.session(steps, base_conc)
+    # whole-series statistics over a series with a missing value, under every data carrier (a carrier that reduces itself,
+    # like a dask array, must not bring its own idea of a mean / range over NaN)
+    for rep in range(ctx.pick(12, 60)):
+        c = g.base("att")
+        if len(c["x"]) < 3 or len(c["t"]) != len(c["x"]):
+            continue
+        c["p"]["period"], c["p"]["minobs"], c["p"]["minperiod"] = gen_qc.NA, gen_qc.NA, gen_qc.NA
+        c["x"] = [v if v != gen_qc.NA else 1 for v in c["x"]]
+        c["x"][g.r.randrange(len(c["x"]))] = gen_qc.NA
+        steps = [({"kind": "base", "i": 0, "k": 0}, c)]
+        for xc in CARRIER_SETS_QUICK["xc"]:
+            steps.append(({"kind": "recall", "i": 0, "k": 0}, json.loads(json.dumps(c)),
+                          {"conc": {"xc": xc}, "variant": True, "variant_label": "wholeseries,xc=" + xc}))
+        rec.session(steps, dict(CONCS[rep % 2]))
     # integer arrays between thresholds / spans that are not whole numbers: data in whole units (multiples of four
     # quarter units), parameters anywhere on the quarter grid
     for fn in ALL_FNS:
